@@ -455,6 +455,18 @@ class HTTP1Connection(httputil.HTTPConnection):
                 and not self._disconnect_on_finish
             ):
                 headers["Connection"] = "Keep-Alive"
+            # Never acknowledge keep-alive (e.g. in a Connection header set by
+            # the application) to a 1.0 client whose connection will be closed.
+            if (
+                self._request_start_line.version == "HTTP/1.0"
+                and self._disconnect_on_finish
+                and "keep-alive"
+                in [
+                    t.strip().lower()
+                    for t in headers.get("Connection", "").split(",")
+                ]
+            ):
+                headers["Connection"] = "close"
         if self._chunking_output:
             headers["Transfer-Encoding"] = "chunked"
         if not self.is_client and (
